@@ -187,8 +187,8 @@ def run_script(exe, reqs, timeout):
 
 def canon(art, v):
     if isinstance(v, dict):
-        if "hm" in v:
-            return ("ok", v["hm"])         # Mir Display with the numeral after `arg` masked (finding F22 is judged separately)
+        if "hg" in v:
+            return ("ok", v["hg"])         # Mir Display with the numerals of `arg <id>:` and `g(<n>)` masked (F22 / F23 are judged separately)
         if "h" in v:
             return ("ok", v["h"])
         if "err" in v:
@@ -404,7 +404,6 @@ def run(ck):
         ok_arts = [a for a in ARTS if isinstance(o[0][2].get(a), dict) and "h" in o[0][2].get(a, {})]
         if ok_arts:
             nontrivial += 1
-        bump("observations_per_source_min", 0)
         diffs = {}
         for a in ARTS:
             groups_ = {}
@@ -420,13 +419,20 @@ def run(ck):
                 ck.known(findings["F21"], s["name"] + ": " + " / ".join(errlists[0])[:160])
             else:
                 diffs["diagnostics-order"] = {("order", i): [] for i in range(2)}
-        raw = {r["mir"]["h"] for _, _, r in o if isinstance(r.get("mir"), dict) and "h" in r["mir"]}
-        if len(raw) > 1 and "mir" not in diffs:
+        mirs = [r["mir"] for _, _, r in o if isinstance(r.get("mir"), dict) and "h" in r["mir"]]
+        if "mir" not in diffs and len({m["hm"] for m in mirs}) > 1:
+            # equal up to g(<n>): class F23 = the Mir retains a generic function (type-scheme variables)
+            if "F23" in findings and all(m.get("generic") for m in mirs):
+                bump("mir_display_type_scheme_numbering_differs(F23)")
+                ck.known(findings["F23"], s["name"])
+            else:
+                diffs["mir-typescheme-numbering"] = {("hm", m["hm"]): [] for m in mirs[:2]}
+        elif "mir" not in diffs and len({m["h"] for m in mirs}) > 1:
             if "F22" in findings:
                 bump("mir_display_raw_symbol_id_differs(F22)")
                 ck.known(findings["F22"], s["name"])
             else:
-                diffs["mir-raw"] = {("raw", i): [] for i in range(2)}
+                diffs["mir-raw-symbol-id"] = {("raw", m["h"]): [] for m in mirs[:2]}
         if not diffs:
             bump("sources_identical_in_all_observations")
             continue
@@ -438,6 +444,9 @@ def run(ck):
         # a genuine difference: fetch the two artefacts in full by re-running the two scripts
         art = sorted(diffs)[0]
         detail = {"artefact": art}
+        bump("sources_with_unexplained_difference")
+        if len(viol) >= 5:
+            continue        # only the first five are written out as replays
         if art in ARTS:
             (k1, l1), (k2, l2) = list(diffs[art].items())[:2]
             c1, c2 = l1[0], l2[0]
@@ -450,6 +459,8 @@ def run(ck):
                 res2, _ = run_script(exe, reqs, 600)
                 v = res2[-1].get(art) if len(res2) == len(reqs) else None
                 texts.append(v.get("text") if isinstance(v, dict) else json.dumps(v))
+            if art == "mir" and all(isinstance(t, str) for t in texts):
+                texts = [re.sub(r"\bg\(\d+\)", "g(_)", re.sub(r"\barg \d+:", "arg _:", t)) for t in texts]
             if texts[0] is not None and texts[1] is not None and texts[0] != texts[1]:
                 detail["first_difference"] = first_diff(str(texts[0]), str(texts[1]))
             else:
